@@ -331,9 +331,12 @@ class AttributeAssignment:
         ):
             # None is not an instance of the matched type
             return True
-        return (not attr_type) or (
-            (self.assigned_value.type_ and self.assigned_value.type_ is not attr_type)
-            and issubclass(self.assigned_value.type_, attr_type)
+        # not needed when every value of the declared type is an instance of the matched type anyway; the matched type
+        # need not be a subclass of the declared one (a mixin that only some of the values inherit from)
+        return (not attr_type) or bool(
+            self.assigned_value.type_
+            and self.assigned_value.type_ is not attr_type
+            and not issubclass(attr_type, self.assigned_value.type_)
         )
 
 
